@@ -22,24 +22,29 @@ from qv.driver import b2f, f2b
 LEVEL = "proof"
 MANIFEST_ENTRY = {
     "category": "proof",
-    "text": "Lean 4 theorems over an executable model of Dataset.bin/pad/crop/fourier_resample (Model/Resample.lean, generic "
-            "element type for the exact ops, numeric carrier for the Fourier path): every binned element is exactly its block sum "
-            "and only indices >= f*(n//f) are dropped (N-D), block-centre coordinates are preserved by the origin/sampling "
-            "update, total counts over the covered region are preserved (1-D list form, any additive commutative monoid), "
-            "pad-to-shape followed by cropping the pad widths is the identity with floor/ceil widths summing to out-n (N-D); "
-            "the frequency index map freqMap n m (fftshift, centred crop/zero-pad, ifftshift run on bin numbers) preserves the "
-            "signed frequency, is injective, keeps DC, is the identity for n=m and composes to the identity up->down; the "
-            "calibration update preserves the physical centre and the extent; over the reals (carrier = R, DFT = defining sums): "
-            "mean/DC preservation, linearity and the n=m identity of the 1-D resampling operator. "
-            "Tied to the code on every run by exact equality (bin/pad/crop), a Float run of the same definitions against "
-            "np.fft (tolerance 1e-9) and an exhaustive discrete index-map stream; the statement's clauses are evaluated on the "
-            "real code with exact block / dense-DFT oracles as the failing-input search.",
+    "text": "Lean 4 theorems over an executable model of Dataset.bin/pad/crop/fourier_resample (Model/Resample.lean; generic "
+            "element type for the exact ops, numeric carrier for the Fourier path). Binning (N-D, any shape/factors): every "
+            "binned element is exactly its block sum, only indices >= f*(n//f) are dropped and every covered pixel is read by "
+            "exactly one block, the total over the covered region is preserved (any commutative additive monoid), the "
+            "origin/sampling update puts binned pixel j at the mean coordinate of its block. Padding/cropping (N-D): floor/ceil "
+            "widths sum to out-n, padded array = original at offset `before` in zeros, and the index expression Dataset.crop "
+            "builds from ((before,-after),...) (after=0 -> None) is accepted by the NumPy index normalisation and returns the "
+            "original array. Fourier resampling: the index map freqMap n m (fftshift, centred crop/zero-pad, ifftshift run on "
+            "bin numbers; the data path provably follows it) preserves signed frequency, is injective, keeps exactly the "
+            "in-band bins, keeps DC, is the identity for n=m and is undone by the down-map for m>=n; the calibration update "
+            "preserves physical centre and extent; and over the reals (carrier = R, DFT = the defining sums, roots of unity "
+            "from Mathlib) the 1-D operator equals the explicit band-limited DFT formula, preserves the mean, is C-linear, is "
+            "the identity for unchanged length, up->down returns the original for every complex signal and - with the `.real` "
+            "steps of the code - for every real signal without Nyquist content (Hermitian-symmetry proof; real output proved). "
+            "Tied to the code on every run by exact equality (bin/pad/crop on integer data), a Float run of the same definitions "
+            "against np.fft (tolerance 1e-9) and an exhaustive discrete index-map stream; the statement's clauses are evaluated "
+            "on the real code with exact block / dense-DFT oracles as the failing-input search.",
     "note": "Trusted: Lean kernel + propext/Classical.choice/Quot.sound; np.fft is assumed to compute the defining DFT sums "
-            "(exercised by the Float stream); IEEE rounding is measured, not proved; N-D fourier_resample is modelled as a "
-            "fold of the 1-D operator over the axes (separability of np.fft.fftn is sampled, not proved); the spectral "
-            "round-trip law (up then down = identity without Nyquist content) is proved at index-map level and measured on "
-            "the implementation, not derived over R; duplicate axes are not generated.",
-    "technique": "Lean 4 proof (list/array algebra, roots-of-unity sums) + model-vs-implementation correspondence",
+            "(exercised by the Float stream); IEEE rounding is measured, not proved; the spectral theorems are for the 1-D "
+            "operator - N-D fourier_resample is modelled as a fold of it over the axes and its laws (separability of "
+            "np.fft.fftn) are measured on the implementation, not proved; the mean reducer is the block sum divided by the "
+            "product of factors by definition of the model (checked by exact correspondence); duplicate axes are not generated.",
+    "technique": "Lean 4 proof (list/array algebra, index-map arithmetic, roots-of-unity sums over C) + model-vs-implementation correspondence",
 }
 RULE = ("a case is one operation (or one law instance) on one array; distinct non-trivial = distinct (stream, op, ndim, dtype kind, "
         "axes pattern, parity pattern / divisibility pattern, reducer or up/down direction) with at least 2 elements")
